@@ -18,7 +18,7 @@ PROPS['C06'] = {
     'assumptions': ['golang.org/x/net/bpf.Assemble encodes instructions faithfully (it is what LoadFilter uses)',
                     'independent interpreter internal/cbpf implements classic BPF semantics'],
     'required_classes': {'all': ['has-bridge', 'both-branches-far', 'far-nonreturn-target', 'skip-255', 'skip-256',
-                                 'label-with-3+-far-jumps', 'assembled-more-than-once', 'padding-crosses-255-instructions',
+                                 'label-with-3+-far-jumps', 'assembled-more-than-once', 'target-beyond-instruction-65535', 'padding-crosses-255-instructions',
                                  'crossing-with-foreign-architecture-events', 'crossing-with-x32-events', 'crossing-with-errno-default']},
     'units': [
         {'test': 'TestC06Labels', 'checks': {'quick': 6400, 'thorough': 48000}, 'shards': {'quick': 16, 'thorough': 16},
@@ -472,6 +472,8 @@ for _pid, _target in (('C06', 'FuzzC06Labels'), ('C07', 'FuzzC07Validation'), ('
     PROPS[_pid]['units'].append({'fuzz': _target, 'tiers': ('thorough',), 'fuzztime': {'thorough': '90s'}, 'timeout': {'thorough': 600},
                                  'helpers': ['kverify'] if _pid == 'C05' else []})
 
+PROPS['C14']['units'].append({'test': 'TestC14OtherProcesses', 'helpers': ['digest', {'name': 'digest', 'goarch': '386'}], 'timeout': {'quick': 300, 'thorough': 600}})
+PROPS['C14']['units'].append({'test': 'TestC14FirstUse', 'checks': {'quick': 240, 'thorough': 12000}, 'shards': {'quick': 8, 'thorough': 16}, 'helpers': [{'name': 'racefirst', 'race': True, 'env': 'racefirst'}], 'timeout': {'quick': 300, 'thorough': 1500}})
 PROPS['C07']['units'].append({'test': 'TestC07JsWasm', 'timeout': {'quick': 600, 'thorough': 900}})
 PROPS['C01']['units'].append({'test': 'TestC01OtherProcesses', 'helpers': ['digest', {'name': 'digest', 'goarch': '386'}], 'timeout': {'quick': 300, 'thorough': 900}})
 PROPS['C02']['units'].append({'test': 'TestC02OtherProcesses', 'helpers': ['digest', {'name': 'digest', 'goarch': '386'}], 'timeout': {'quick': 300, 'thorough': 900}})
